@@ -90,6 +90,17 @@ let eqb b1 b2 =
 
 module Nat =
  struct
+  (** val eqb : nat -> nat -> bool **)
+
+  let rec eqb n0 m =
+    match n0 with
+    | O -> (match m with
+            | O -> true
+            | S _ -> false)
+    | S n' -> (match m with
+               | O -> false
+               | S m' -> eqb n' m')
+
   (** val leb : nat -> nat -> bool **)
 
   let rec leb n0 m =
@@ -98,6 +109,11 @@ module Nat =
     | S n' -> (match m with
                | O -> false
                | S m' -> leb n' m')
+
+  (** val ltb : nat -> nat -> bool **)
+
+  let ltb n0 m =
+    leb (S n0) m
  end
 
 module Pos =
@@ -784,6 +800,17 @@ module Z =
   let quot a b =
     fst (quotrem a b)
 
+  (** val even : z -> bool **)
+
+  let even = function
+  | Z0 -> true
+  | Zpos p -> (match p with
+               | XO _ -> true
+               | _ -> false)
+  | Zneg p -> (match p with
+               | XO _ -> true
+               | _ -> false)
+
   (** val div2 : z -> z **)
 
   let div2 = function
@@ -886,6 +913,12 @@ let rec nth n0 l default =
             | [] -> default
             | _ :: t -> nth m t default)
 
+(** val rev : 'a1 list -> 'a1 list **)
+
+let rec rev = function
+| [] -> []
+| x :: l' -> app (rev l') (x :: [])
+
 (** val map : ('a1 -> 'a2) -> 'a1 list -> 'a2 list **)
 
 let rec map f = function
@@ -954,6 +987,22 @@ let w32 x =
 
 let w64 x =
   Z.modulo x (Z.pow (Zpos (XO XH)) (Zpos (XO (XO (XO (XO (XO (XO XH))))))))
+
+(** val s8 : z -> z **)
+
+let s8 x =
+  let y = w8 x in
+  if Z.ltb y (Z.pow (Zpos (XO XH)) (Zpos (XI (XI XH))))
+  then y
+  else Z.sub y (Z.pow (Zpos (XO XH)) (Zpos (XO (XO (XO XH)))))
+
+(** val s16 : z -> z **)
+
+let s16 x =
+  let y = w16 x in
+  if Z.ltb y (Z.pow (Zpos (XO XH)) (Zpos (XI (XI (XI XH)))))
+  then y
+  else Z.sub y (Z.pow (Zpos (XO XH)) (Zpos (XO (XO (XO (XO XH))))))
 
 (** val s32 : z -> z **)
 
@@ -6382,13 +6431,13 @@ let rec decode fuel c b old flags =
                                                       (VStruct vs0)
                                                   | None ->
                                                     loop fuel'' offset1 vs0)
-                                       else let skip = Z.add s (s64 size1) in
+                                       else let skip0 = Z.add s (s64 size1) in
                                             let err0 = None in
                                             if Z.leb
-                                                 (s64 (Z.add offset0 skip))
+                                                 (s64 (Z.add offset0 skip0))
                                                  (len b)
                                             then let offset1 =
-                                                   s64 (Z.add offset0 skip)
+                                                   s64 (Z.add offset0 skip0)
                                                  in
                                                  (match err0 with
                                                   | Some _ ->
@@ -6456,15 +6505,15 @@ let rec decode fuel c b old flags =
                                                         (VStruct vs0)
                                                     | None ->
                                                       loop fuel'' offset1 vs0)
-                                         else let skip = Z0 in
+                                         else let skip0 = Z0 in
                                               let err0 = Some
                                                 Proto_ErrWireTypeUnknown
                                               in
                                               if Z.leb
-                                                   (s64 (Z.add offset0 skip))
+                                                   (s64 (Z.add offset0 skip0))
                                                    (len b)
                                               then let offset1 =
-                                                     s64 (Z.add offset0 skip)
+                                                     s64 (Z.add offset0 skip0)
                                                    in
                                                    (match err0 with
                                                     | Some _ ->
@@ -10582,3 +10631,1724 @@ let needs_escape_json html c =
 let rec first_index p i = function
 | [] -> Zneg XH
 | c :: r -> if p c then i else first_index p (Z.add i (Zpos XH)) r
+
+type terr =
+| EEOF
+| EUnexpectedEOF
+| EOther
+| EMissing
+| EMismatch
+
+type 'a tres =
+| TOk of 'a
+| TErr of terr
+| TPanic
+| TOutOfFuel
+
+(** val tbind : 'a1 tres -> ('a1 -> 'a2 tres) -> 'a2 tres **)
+
+let tbind r f =
+  match r with
+  | TOk a -> f a
+  | TErr e -> TErr e
+  | TPanic -> TPanic
+  | TOutOfFuel -> TOutOfFuel
+
+(** val dont_expect_eof : 'a1 tres -> 'a1 tres **)
+
+let dont_expect_eof r = match r with
+| TErr e -> (match e with
+             | EEOF -> TErr EUnexpectedEOF
+             | _ -> r)
+| _ -> r
+
+type tty =
+| ThBool
+| ThI8
+| ThI16
+| ThI32
+| ThI64
+| ThF64
+| ThStr
+| ThBytes
+| ThList of tty
+| ThSet of tty
+| ThMap of tty * tty
+| ThStruct of tfield list
+| ThPtr of tty
+and tfield =
+| TField of z * z * tty
+
+type tval =
+| TvBool of bool
+| TvInt of z
+| TvBytes of bool * bytes
+| TvList of bool * tval list
+| TvSet of bool * tval list
+| TvMap of bool * (tval * tval) list
+| TvStruct of tval list
+| TvPtr of tval option
+
+type proto =
+| PBinary
+| PCompact
+
+(** val f_enum : z **)
+
+let f_enum =
+  Zpos XH
+
+(** val f_required : z **)
+
+let f_required =
+  Zpos (XO (XO XH))
+
+(** val f_optional : z **)
+
+let f_optional =
+  Zpos (XO (XO (XO XH)))
+
+(** val f_strict : z **)
+
+let f_strict =
+  Zpos (XO (XO (XO (XO XH))))
+
+(** val has_flag0 : z -> z -> bool **)
+
+let has_flag0 f x =
+  Z.eqb (Z.coq_land f x) x
+
+(** val c_STOP : z **)
+
+let c_STOP =
+  Z0
+
+(** val c_TRUE : z **)
+
+let c_TRUE =
+  Zpos XH
+
+(** val c_BOOL : z **)
+
+let c_BOOL =
+  Zpos (XO XH)
+
+(** val c_I8 : z **)
+
+let c_I8 =
+  Zpos (XI XH)
+
+(** val c_I16 : z **)
+
+let c_I16 =
+  Zpos (XO (XO XH))
+
+(** val c_I32 : z **)
+
+let c_I32 =
+  Zpos (XI (XO XH))
+
+(** val c_I64 : z **)
+
+let c_I64 =
+  Zpos (XO (XI XH))
+
+(** val c_DOUBLE : z **)
+
+let c_DOUBLE =
+  Zpos (XI (XI XH))
+
+(** val c_BINARY : z **)
+
+let c_BINARY =
+  Zpos (XO (XO (XO XH)))
+
+(** val c_LIST : z **)
+
+let c_LIST =
+  Zpos (XI (XO (XO XH)))
+
+(** val c_SET : z **)
+
+let c_SET =
+  Zpos (XO (XI (XO XH)))
+
+(** val c_MAP : z **)
+
+let c_MAP =
+  Zpos (XI (XI (XO XH)))
+
+(** val c_STRUCT : z **)
+
+let c_STRUCT =
+  Zpos (XO (XO (XI XH)))
+
+(** val type_of : tty -> z **)
+
+let rec type_of = function
+| ThBool -> c_BOOL
+| ThI8 -> c_I8
+| ThI16 -> c_I16
+| ThI32 -> c_I32
+| ThI64 -> c_I64
+| ThF64 -> c_DOUBLE
+| ThList _ -> c_LIST
+| ThSet _ -> c_SET
+| ThMap (_, _) -> c_MAP
+| ThStruct _ -> c_STRUCT
+| ThPtr t' -> type_of t'
+| _ -> c_BINARY
+
+(** val fld_id : tfield -> z **)
+
+let fld_id = function
+| TField (i, _, _) -> i
+
+(** val fld_flags : tfield -> z **)
+
+let fld_flags = function
+| TField (_, fl, _) -> fl
+
+(** val fld_ty : tfield -> tty **)
+
+let fld_ty = function
+| TField (_, _, t) -> t
+
+(** val be_bytes : nat -> z -> bytes **)
+
+let rec be_bytes n0 v =
+  match n0 with
+  | O -> []
+  | S n' ->
+    (Z.modulo
+      (Z.div v
+        (Z.pow (Zpos (XO (XO (XO (XO (XO (XO (XO (XO XH)))))))))
+          (Z.of_nat n'))) (Zpos (XO (XO (XO (XO (XO (XO (XO (XO XH)))))))))) :: 
+      (be_bytes n' v)
+
+(** val uvarint_fuel : nat -> z -> bytes **)
+
+let rec uvarint_fuel fuel v =
+  match fuel with
+  | O -> []
+  | S f ->
+    if Z.ltb v (Zpos (XO (XO (XO (XO (XO (XO (XO XH))))))))
+    then v :: []
+    else (Z.add (Z.modulo v (Zpos (XO (XO (XO (XO (XO (XO (XO XH)))))))))
+           (Zpos (XO (XO (XO (XO (XO (XO (XO XH))))))))) :: (uvarint_fuel f
+                                                              (Z.div v (Zpos
+                                                                (XO (XO (XO
+                                                                (XO (XO (XO
+                                                                (XO
+                                                                XH))))))))))
+
+(** val uvarint : z -> bytes **)
+
+let uvarint v =
+  uvarint_fuel (S (S (S (S (S (S (S (S (S (S O)))))))))) (w64 v)
+
+(** val zz64 : z -> z **)
+
+let zz64 v =
+  if Z.leb Z0 v
+  then Z.mul (Zpos (XO XH)) v
+  else Z.sub (Z.mul (Zneg (XO XH)) v) (Zpos XH)
+
+(** val varint : z -> bytes **)
+
+let varint v =
+  uvarint (zz64 v)
+
+(** val w_i16 : proto -> z -> bytes **)
+
+let w_i16 p v =
+  match p with
+  | PBinary -> be_bytes (S (S O)) (w16 v)
+  | PCompact -> varint v
+
+(** val w_i32 : proto -> z -> bytes **)
+
+let w_i32 p v =
+  match p with
+  | PBinary -> be_bytes (S (S (S (S O)))) (w32 v)
+  | PCompact -> varint v
+
+(** val w_i64 : proto -> z -> bytes **)
+
+let w_i64 p v =
+  match p with
+  | PBinary -> be_bytes (S (S (S (S (S (S (S (S O)))))))) (w64 v)
+  | PCompact -> varint v
+
+(** val w_f64 : proto -> z -> bytes **)
+
+let w_f64 _ bits =
+  be_bytes (S (S (S (S (S (S (S (S O)))))))) bits
+
+(** val w_len : proto -> z -> bytes **)
+
+let w_len p n0 =
+  match p with
+  | PBinary -> be_bytes (S (S (S (S O)))) n0
+  | PCompact -> uvarint n0
+
+(** val w_bytes : proto -> bytes -> bytes **)
+
+let w_bytes p s =
+  app (w_len p (len s)) s
+
+(** val w_field : proto -> z -> z -> bytes **)
+
+let w_field p id0 ty =
+  match p with
+  | PBinary -> app ((w8 ty) :: []) (be_bytes (S (S O)) (w16 id0))
+  | PCompact ->
+    if Z.eqb ty c_STOP
+    then Z0 :: []
+    else if Z.leb id0 (Zpos (XI (XI (XI XH))))
+         then (Z.coq_lor (w8 (Z.mul id0 (Zpos (XO (XO (XO (XO XH)))))))
+                (w8 ty)) :: []
+         else app ((w8 ty) :: []) (varint id0)
+
+(** val w_list : proto -> z -> z -> bytes **)
+
+let w_list p size1 ty =
+  match p with
+  | PBinary -> app ((w8 ty) :: []) (be_bytes (S (S (S (S O)))) (w32 size1))
+  | PCompact ->
+    if Z.leb size1 (Zpos (XO (XI (XI XH))))
+    then (Z.coq_lor (w8 (Z.mul size1 (Zpos (XO (XO (XO (XO XH))))))) (w8 ty)) :: []
+    else app
+           ((Z.coq_lor (Zpos (XO (XO (XO (XO (XI (XI (XI XH)))))))) (w8 ty)) :: [])
+           (uvarint size1)
+
+(** val w_map : proto -> z -> z -> z -> bytes **)
+
+let w_map p size1 k v =
+  match p with
+  | PBinary ->
+    app ((w8 k) :: ((w8 v) :: [])) (be_bytes (S (S (S (S O)))) (w32 size1))
+  | PCompact ->
+    app (uvarint size1)
+      (if Z.eqb size1 Z0
+       then []
+       else (Z.coq_lor (w8 (Z.mul k (Zpos (XO (XO (XO (XO XH))))))) (w8 v)) :: [])
+
+(** val is_zero : tval -> bool **)
+
+let rec is_zero = function
+| TvBool b -> negb b
+| TvInt z0 -> Z.eqb z0 Z0
+| TvBytes (nn, _) -> (||) (negb nn) false
+| TvList (nn, _) -> negb nn
+| TvSet (nn, _) -> negb nn
+| TvMap (nn, _) -> negb nn
+| TvStruct vs -> forallb is_zero vs
+| TvPtr o -> (match o with
+              | Some _ -> false
+              | None -> true)
+
+(** val is_zero_at : tty -> tval -> bool **)
+
+let is_zero_at t v =
+  match t with
+  | ThF64 ->
+    (match v with
+     | TvInt z0 ->
+       (||) (Z.eqb z0 Z0)
+         (Z.eqb z0 (Z.pow (Zpos (XO XH)) (Zpos (XI (XI (XI (XI (XI XH))))))))
+     | _ -> is_zero v)
+  | ThStr ->
+    (match v with
+     | TvBytes (_, s) -> Z.eqb (len s) Z0
+     | _ -> is_zero v)
+  | _ -> is_zero v
+
+(** val is_zero_t : tty -> tval -> bool **)
+
+let rec is_zero_t t v =
+  match t with
+  | ThStruct fs ->
+    (match v with
+     | TvStruct vs ->
+       let rec go fs0 vs0 =
+         match fs0 with
+         | [] -> true
+         | t0 :: fr ->
+           let TField (_, _, ft) = t0 in
+           (match vs0 with
+            | [] -> true
+            | x :: vr -> (&&) (is_zero_t ft x) (go fr vr))
+       in go fs vs
+     | _ -> is_zero_at t v)
+  | _ -> is_zero_at t v
+
+(** val zero_of : tty -> tval **)
+
+let rec zero_of = function
+| ThBool -> TvBool false
+| ThStr -> TvBytes (true, [])
+| ThBytes -> TvBytes (false, [])
+| ThList _ -> TvList (false, [])
+| ThSet _ -> TvSet (false, [])
+| ThMap (_, _) -> TvMap (false, [])
+| ThStruct fs ->
+  TvStruct
+    (let rec go = function
+     | [] -> []
+     | t0 :: r -> let TField (_, _, ft) = t0 in (zero_of ft) :: (go r)
+     in go fs)
+| ThPtr _ -> TvPtr None
+| _ -> TvInt Z0
+
+(** val insert_by_id :
+    (tfield * 'a1) -> (tfield * 'a1) list -> (tfield * 'a1) list **)
+
+let rec insert_by_id x l = match l with
+| [] -> x :: []
+| y :: r ->
+  if Z.leb (fld_id (fst y)) (fld_id (fst x))
+  then y :: (insert_by_id x r)
+  else x :: l
+
+(** val sort_by_id : (tfield * 'a1) list -> (tfield * 'a1) list **)
+
+let sort_by_id l =
+  fold_left (fun acc x -> insert_by_id x acc) l []
+
+(** val deref_bool : tval -> bool **)
+
+let deref_bool v =
+  let rec go n0 v0 =
+    match n0 with
+    | O -> false
+    | S n' ->
+      (match v0 with
+       | TvBool b -> b
+       | TvPtr o -> (match o with
+                     | Some x -> go n' x
+                     | None -> false)
+       | _ -> false)
+  in go (S (S (S (S (S (S (S (S O)))))))) v
+
+(** val enc : proto -> tty -> tval -> bytes **)
+
+let rec enc p t v =
+  match t with
+  | ThBool ->
+    (match v with
+     | TvBool b -> (if b then Zpos XH else Z0) :: []
+     | _ -> [])
+  | ThI8 -> (match v with
+             | TvInt z0 -> (w8 z0) :: []
+             | _ -> [])
+  | ThI16 -> (match v with
+              | TvInt z0 -> w_i16 p z0
+              | _ -> [])
+  | ThI32 -> (match v with
+              | TvInt z0 -> w_i32 p z0
+              | _ -> [])
+  | ThI64 -> (match v with
+              | TvInt z0 -> w_i64 p z0
+              | _ -> [])
+  | ThF64 -> (match v with
+              | TvInt z0 -> w_f64 p z0
+              | _ -> [])
+  | ThList et ->
+    (match v with
+     | TvList (_, es) ->
+       app (w_list p (len es) (type_of et))
+         (let rec go = function
+          | [] -> []
+          | x :: r -> app (enc p et x) (go r)
+          in go es)
+     | _ -> [])
+  | ThSet kt ->
+    (match v with
+     | TvSet (_, ks) ->
+       app (w_list p (len ks) (type_of kt))
+         (let rec go = function
+          | [] -> []
+          | x :: r -> app (enc p kt x) (go r)
+          in go ks)
+     | _ -> [])
+  | ThMap (kt, vt) ->
+    (match v with
+     | TvMap (_, es) ->
+       app (w_map p (len es) (type_of kt) (type_of vt))
+         (let rec go = function
+          | [] -> []
+          | p0 :: r ->
+            let (k, x) = p0 in app (enc p kt k) (app (enc p vt x) (go r))
+          in go es)
+     | _ -> [])
+  | ThStruct fs ->
+    (match v with
+     | TvStruct vs ->
+       let encs =
+         let rec mk fs0 vs0 =
+           match fs0 with
+           | [] -> []
+           | f :: fr ->
+             (match vs0 with
+              | [] -> []
+              | x :: vr ->
+                let body =
+                  let TField (_, fl, ft) = f in
+                  if has_flag0 fl f_enum
+                  then (match ft with
+                        | ThI8 ->
+                          (match x with
+                           | TvInt z0 -> w_i32 p (s32 z0)
+                           | _ -> enc p ft x)
+                        | ThI16 ->
+                          (match x with
+                           | TvInt z0 -> w_i32 p (s32 z0)
+                           | _ -> enc p ft x)
+                        | ThI32 ->
+                          (match x with
+                           | TvInt z0 -> w_i32 p (s32 z0)
+                           | _ -> enc p ft x)
+                        | ThI64 ->
+                          (match x with
+                           | TvInt z0 -> w_i32 p (s32 z0)
+                           | _ -> enc p ft x)
+                        | _ -> enc p ft x)
+                  else enc p ft x
+                in
+                (f, (x, body)) :: (mk fr vr))
+         in mk fs vs
+       in
+       let sorted = sort_by_id encs in
+       let rec go l last =
+         match l with
+         | [] -> w_field p Z0 c_STOP
+         | p0 :: r ->
+           let (f, p1) = p0 in
+           let (x, body) = p1 in
+           let skip0 =
+             (||)
+               (match x with
+                | TvPtr o -> (match o with
+                              | Some _ -> false
+                              | None -> true)
+                | _ -> false)
+               ((&&) (negb (has_flag0 (fld_flags f) f_required))
+                 (is_zero_t (fld_ty f) x))
+           in
+           if skip0
+           then go r last
+           else let ty = type_of (fld_ty f) in
+                let delta = s16 (Z.sub (fld_id f) last) in
+                let coalesce =
+                  match p with
+                  | PBinary -> false
+                  | PCompact -> Z.eqb ty c_BOOL
+                in
+                let wty = if (&&) coalesce (deref_bool x) then c_TRUE else ty
+                in
+                app
+                  (w_field p
+                    (match p with
+                     | PBinary -> fld_id f
+                     | PCompact ->
+                       if Z.leb delta (Zpos (XI (XI (XI XH))))
+                       then delta
+                       else fld_id f) wty)
+                  (app (if coalesce then [] else body) (go r (fld_id f)))
+       in go sorted Z0
+     | _ -> [])
+  | ThPtr t' ->
+    (match v with
+     | TvPtr o ->
+       (match o with
+        | Some x -> enc p t' x
+        | None -> enc p t' (zero_of t'))
+     | _ -> [])
+  | _ -> (match v with
+          | TvBytes (_, s) -> w_bytes p s
+          | _ -> [])
+
+(** val tMarshal : proto -> tty -> tval -> bytes **)
+
+let tMarshal =
+  enc
+
+type 'a rd = bytes -> ('a * bytes) tres
+
+(** val r_byte : z rd **)
+
+let r_byte = function
+| [] -> TErr EEOF
+| x :: r -> TOk (x, r)
+
+(** val r_full : nat -> bytes rd **)
+
+let r_full n0 b =
+  if Nat.eqb n0 O
+  then TOk ([], b)
+  else (match b with
+        | [] -> TErr EEOF
+        | _ :: _ ->
+          if Nat.ltb (length b) n0
+          then TErr EUnexpectedEOF
+          else TOk ((firstn n0 b), (skipn n0 b)))
+
+(** val be_val : bytes -> z **)
+
+let rec be_val b =
+  fold_left (fun acc x ->
+    Z.add (Z.mul acc (Zpos (XO (XO (XO (XO (XO (XO (XO (XO XH)))))))))) x) b
+    Z0
+
+(** val r_uvarint_loop : nat -> z -> z -> z -> bytes -> (z * bytes) tres **)
+
+let rec r_uvarint_loop fuel i x s b =
+  match fuel with
+  | O -> TErr EOther
+  | S f ->
+    (match b with
+     | [] -> TErr (if Z.eqb i Z0 then EEOF else EUnexpectedEOF)
+     | c :: r ->
+       if Z.ltb c (Zpos (XO (XO (XO (XO (XO (XO (XO XH))))))))
+       then if (&&) (Z.eqb i (Zpos (XI (XO (XO XH))))) (Z.gtb c (Zpos XH))
+            then TErr EOther
+            else TOk ((Z.coq_lor x (w64 (Z.shiftl c s))), r)
+       else r_uvarint_loop f (Z.add i (Zpos XH))
+              (Z.coq_lor x
+                (w64
+                  (Z.shiftl
+                    (Z.coq_land c (Zpos (XI (XI (XI (XI (XI (XI XH)))))))) s)))
+              (Z.add s (Zpos (XI (XI XH)))) r)
+
+(** val r_uvarint : z -> z rd **)
+
+let r_uvarint max0 b =
+  tbind (r_uvarint_loop (S (S (S (S (S (S (S (S (S (S O)))))))))) Z0 Z0 Z0 b)
+    (fun pat ->
+    let (u, r) = pat in if Z.gtb u max0 then TErr EOther else TOk (u, r))
+
+(** val unzz : z -> z **)
+
+let unzz u =
+  if Z.even u
+  then Z.div u (Zpos (XO XH))
+  else Z.opp (Z.div (Z.add u (Zpos XH)) (Zpos (XO XH)))
+
+(** val r_varint : z -> z -> z rd **)
+
+let r_varint lo hi b =
+  tbind (r_uvarint_loop (S (S (S (S (S (S (S (S (S (S O)))))))))) Z0 Z0 Z0 b)
+    (fun pat ->
+    let (u, r) = pat in
+    let v = unzz u in
+    if (||) (Z.ltb v lo) (Z.gtb v hi) then TErr EOther else TOk (v, r))
+
+(** val r_i16 : proto -> z rd **)
+
+let r_i16 p b =
+  match p with
+  | PBinary ->
+    tbind (r_full (S (S O)) b) (fun pat ->
+      let (x, r) = pat in TOk ((s16 (be_val x)), r))
+  | PCompact ->
+    r_varint (Z.opp (Z.pow (Zpos (XO XH)) (Zpos (XI (XI (XI XH))))))
+      (Z.sub (Z.pow (Zpos (XO XH)) (Zpos (XI (XI (XI XH))))) (Zpos XH)) b
+
+(** val r_i32 : proto -> z rd **)
+
+let r_i32 p b =
+  match p with
+  | PBinary ->
+    tbind (r_full (S (S (S (S O)))) b) (fun pat ->
+      let (x, r) = pat in TOk ((s32 (be_val x)), r))
+  | PCompact ->
+    r_varint (Z.opp (Z.pow (Zpos (XO XH)) (Zpos (XI (XI (XI (XI XH)))))))
+      (Z.sub (Z.pow (Zpos (XO XH)) (Zpos (XI (XI (XI (XI XH)))))) (Zpos XH)) b
+
+(** val r_i64 : proto -> z rd **)
+
+let r_i64 p b =
+  match p with
+  | PBinary ->
+    tbind (r_full (S (S (S (S (S (S (S (S O)))))))) b) (fun pat ->
+      let (x, r) = pat in TOk ((s64 (be_val x)), r))
+  | PCompact ->
+    r_varint
+      (Z.opp (Z.pow (Zpos (XO XH)) (Zpos (XI (XI (XI (XI (XI XH))))))))
+      (Z.sub (Z.pow (Zpos (XO XH)) (Zpos (XI (XI (XI (XI (XI XH))))))) (Zpos
+        XH)) b
+
+(** val r_f64 : proto -> z rd **)
+
+let r_f64 _ b =
+  tbind (r_full (S (S (S (S (S (S (S (S O)))))))) b) (fun pat ->
+    let (x, r) = pat in TOk ((be_val x), r))
+
+(** val r_len : proto -> z rd **)
+
+let r_len p b =
+  match p with
+  | PBinary ->
+    tbind (r_full (S (S (S (S O)))) b) (fun pat ->
+      let (x, r) = pat in
+      let n0 = be_val x in
+      if Z.gtb n0
+           (Z.sub (Z.pow (Zpos (XO XH)) (Zpos (XI (XI (XI (XI XH)))))) (Zpos
+             XH))
+      then TErr EOther
+      else TOk (n0, r))
+  | PCompact ->
+    r_uvarint
+      (Z.sub (Z.pow (Zpos (XO XH)) (Zpos (XI (XI (XI (XI XH)))))) (Zpos XH)) b
+
+(** val r_bytes : proto -> bytes rd **)
+
+let r_bytes p b =
+  tbind (r_len p b) (fun pat ->
+    let (n0, r) = pat in
+    if Z.ltb (len r) n0
+    then TErr EUnexpectedEOF
+    else TOk ((slice_to r n0), (slice_from r n0)))
+
+(** val r_field : proto -> ((z * z) * bool) rd **)
+
+let r_field p b =
+  match p with
+  | PBinary ->
+    tbind (r_byte b) (fun pat ->
+      let (t, r) = pat in
+      tbind (dont_expect_eof (r_i16 PBinary r)) (fun pat0 ->
+        let (i, r0) = pat0 in TOk (((i, (s8 t)), false), r0)))
+  | PCompact ->
+    tbind (r_byte b) (fun pat ->
+      let (x, r) = pat in
+      if Z.eqb x c_STOP
+      then TOk (((Z0, Z0), false), r)
+      else if negb (Z.eqb (Z.shiftr x (Zpos (XO (XO XH)))) Z0)
+           then TOk ((((Z.shiftr x (Zpos (XO (XO XH)))),
+                  (Z.coq_land x (Zpos (XI (XI (XI XH)))))), true), r)
+           else tbind (dont_expect_eof (r_i16 PCompact r)) (fun pat0 ->
+                  let (i, r0) = pat0 in TOk (((i, (s8 x)), false), r0)))
+
+(** val r_list : proto -> (z * z) rd **)
+
+let r_list p b =
+  match p with
+  | PBinary ->
+    tbind (r_byte b) (fun pat ->
+      let (t, r) = pat in
+      tbind (dont_expect_eof (r_i32 PBinary r)) (fun pat0 ->
+        let (n0, r0) = pat0 in TOk ((n0, (s8 t)), r0)))
+  | PCompact ->
+    tbind (r_byte b) (fun pat ->
+      let (x, r) = pat in
+      if negb
+           (Z.eqb (Z.shiftr x (Zpos (XO (XO XH)))) (Zpos (XI (XI (XI XH)))))
+      then TOk (((Z.shiftr x (Zpos (XO (XO XH)))),
+             (Z.coq_land x (Zpos (XI (XI (XI XH)))))), r)
+      else tbind
+             (dont_expect_eof
+               (r_uvarint
+                 (Z.sub (Z.pow (Zpos (XO XH)) (Zpos (XI (XI (XI (XI XH))))))
+                   (Zpos XH)) r)) (fun pat0 ->
+             let (n0, r0) = pat0 in
+             TOk ((n0, (Z.coq_land x (Zpos (XI (XI (XI XH)))))), r0)))
+
+(** val r_map : proto -> ((z * z) * z) rd **)
+
+let r_map p b =
+  match p with
+  | PBinary ->
+    tbind (r_byte b) (fun pat ->
+      let (k, r) = pat in
+      tbind (dont_expect_eof (r_byte r)) (fun pat0 ->
+        let (v, r0) = pat0 in
+        tbind (dont_expect_eof (r_i32 PBinary r0)) (fun pat1 ->
+          let (n0, r1) = pat1 in TOk (((n0, (s8 k)), (s8 v)), r1))))
+  | PCompact ->
+    tbind
+      (r_uvarint
+        (Z.sub (Z.pow (Zpos (XO XH)) (Zpos (XI (XI (XI (XI XH)))))) (Zpos XH))
+        b) (fun pat ->
+      let (n0, r) = pat in
+      if Z.eqb n0 Z0
+      then TOk (((Z0, Z0), Z0), r)
+      else tbind (dont_expect_eof (r_byte r)) (fun pat0 ->
+             let (x, r0) = pat0 in
+             TOk (((n0, (Z.shiftr x (Zpos (XO (XO XH))))),
+             (Z.coq_land x (Zpos (XI (XI (XI XH)))))), r0)))
+
+(** val skip : nat -> proto -> z -> bytes -> bytes tres **)
+
+let rec skip fuel p ty b =
+  match fuel with
+  | O -> TOutOfFuel
+  | S f ->
+    if (||) ((||) (Z.eqb ty c_TRUE) (Z.eqb ty c_BOOL)) (Z.eqb ty c_I8)
+    then tbind (r_byte b) (fun pat -> let (_, r) = pat in TOk r)
+    else if Z.eqb ty c_I16
+         then tbind (r_i16 p b) (fun pat -> let (_, r) = pat in TOk r)
+         else if Z.eqb ty c_I32
+              then tbind (r_i32 p b) (fun pat -> let (_, r) = pat in TOk r)
+              else if Z.eqb ty c_I64
+                   then tbind (r_i64 p b) (fun pat ->
+                          let (_, r) = pat in TOk r)
+                   else if Z.eqb ty c_DOUBLE
+                        then tbind (r_f64 p b) (fun pat ->
+                               let (_, r) = pat in TOk r)
+                        else if Z.eqb ty c_BINARY
+                             then tbind (r_len p b) (fun pat ->
+                                    let (n0, r) = pat in
+                                    if Z.eqb n0 Z0
+                                    then TOk r
+                                    else if Z.ltb (len r) n0
+                                         then TErr EUnexpectedEOF
+                                         else TOk (slice_from r n0))
+                             else if (||) (Z.eqb ty c_LIST) (Z.eqb ty c_SET)
+                                  then tbind (r_list p b) (fun pat ->
+                                         let (h, r) = pat in
+                                         let (n0, et) = h in
+                                         let rec go k cnt r0 =
+                                           if Z.leb cnt Z0
+                                           then TOk r0
+                                           else (match k with
+                                                 | O -> TOutOfFuel
+                                                 | S k' ->
+                                                   tbind
+                                                     (dont_expect_eof
+                                                       (skip f p et r0))
+                                                     (fun r1 ->
+                                                     go k'
+                                                       (Z.sub cnt (Zpos XH))
+                                                       r1))
+                                         in go (S (length r)) n0 r)
+                                  else if Z.eqb ty c_MAP
+                                       then tbind (r_map p b) (fun pat ->
+                                              let (h, r) = pat in
+                                              let (p0, vt) = h in
+                                              let (n0, kt) = p0 in
+                                              let rec go k cnt r0 =
+                                                if Z.leb cnt Z0
+                                                then TOk r0
+                                                else (match k with
+                                                      | O -> TOutOfFuel
+                                                      | S k' ->
+                                                        tbind
+                                                          (dont_expect_eof
+                                                            (skip f p kt r0))
+                                                          (fun r1 ->
+                                                          tbind
+                                                            (dont_expect_eof
+                                                              (skip f p vt r1))
+                                                            (fun r2 ->
+                                                            go k'
+                                                              (Z.sub cnt
+                                                                (Zpos XH)) r2)))
+                                              in go (S (length r)) n0 r)
+                                       else if Z.eqb ty c_STRUCT
+                                            then let rec go k r last nfields =
+                                                   match k with
+                                                   | O -> TOutOfFuel
+                                                   | S k' ->
+                                                     (match r_field p r with
+                                                      | TOk a ->
+                                                        let (p0, r0) = a in
+                                                        let (p1, isdelta) = p0
+                                                        in
+                                                        let (id0, fty) = p1 in
+                                                        if Z.eqb fty c_STOP
+                                                        then TOk r0
+                                                        else let id1 =
+                                                               if isdelta
+                                                               then s16
+                                                                    (Z.add
+                                                                    id0 last)
+                                                               else id0
+                                                             in
+                                                             tbind
+                                                               (dont_expect_eof
+                                                                 (if 
+                                                                    (&&)
+                                                                    ((||)
+                                                                    (Z.eqb
+                                                                    fty
+                                                                    c_TRUE)
+                                                                    (Z.eqb
+                                                                    fty
+                                                                    c_BOOL))
+                                                                    (match p with
+                                                                    | PBinary ->
+                                                                    false
+                                                                    | PCompact ->
+                                                                    true)
+                                                                  then TOk r0
+                                                                  else 
+                                                                    skip f p
+                                                                    fty r0))
+                                                               (fun r1 ->
+                                                               go k' r1 id1
+                                                                 (Z.add
+                                                                   nfields
+                                                                   (Zpos XH)))
+                                                      | TErr e ->
+                                                        TErr
+                                                          (if (&&)
+                                                                (Z.gtb
+                                                                  nfields Z0)
+                                                                (match e with
+                                                                 | EEOF ->
+                                                                   true
+                                                                 | _ -> false)
+                                                           then EUnexpectedEOF
+                                                           else e)
+                                                      | TPanic -> TPanic
+                                                      | TOutOfFuel ->
+                                                        TOutOfFuel)
+                                                 in go f b Z0 Z0
+                                            else TErr EOther
+
+(** val set_nth0 : tval list -> nat -> tval -> tval list **)
+
+let rec set_nth0 vs i v =
+  match vs with
+  | [] -> []
+  | x :: r -> (match i with
+               | O -> v :: r
+               | S i' -> x :: (set_nth0 r i' v))
+
+(** val tval_eqb : tval -> tval -> bool **)
+
+let rec tval_eqb a b =
+  match a with
+  | TvBool x -> (match b with
+                 | TvBool y -> eqb x y
+                 | _ -> false)
+  | TvInt x -> (match b with
+                | TvInt y -> Z.eqb x y
+                | _ -> false)
+  | TvBytes (_, x) ->
+    (match b with
+     | TvBytes (_, y) -> bytes_eqb x y
+     | _ -> false)
+  | _ -> false
+
+(** val map_set : (tval * tval) list -> tval -> tval -> (tval * tval) list **)
+
+let rec map_set es k v =
+  match es with
+  | [] -> (k, v) :: []
+  | p :: r ->
+    let (k', v') = p in
+    if tval_eqb k' k then (k', v) :: r else (k', v') :: (map_set r k v)
+
+(** val set_add : tval list -> tval -> tval list **)
+
+let rec set_add ks k =
+  match ks with
+  | [] -> k :: []
+  | k' :: r -> if tval_eqb k' k then ks else k' :: (set_add r k)
+
+(** val wrap_ptrs : tty -> tval -> tval **)
+
+let rec wrap_ptrs t v =
+  match t with
+  | ThPtr t' -> TvPtr (Some (wrap_ptrs t' v))
+  | _ -> v
+
+(** val dec :
+    nat -> proto -> tty -> z -> tval -> bytes -> (tval * bytes) tres **)
+
+let rec dec fuel p t flags old b =
+  match fuel with
+  | O -> TOutOfFuel
+  | S f ->
+    (match t with
+     | ThBool ->
+       tbind (r_byte b) (fun pat ->
+         let (x, r) = pat in TOk ((TvBool (negb (Z.eqb x Z0))), r))
+     | ThI8 ->
+       tbind (r_byte b) (fun pat ->
+         let (x, r) = pat in TOk ((TvInt (s8 x)), r))
+     | ThI16 ->
+       tbind (r_i16 p b) (fun pat -> let (x, r) = pat in TOk ((TvInt x), r))
+     | ThI32 ->
+       tbind (r_i32 p b) (fun pat -> let (x, r) = pat in TOk ((TvInt x), r))
+     | ThI64 ->
+       tbind (r_i64 p b) (fun pat -> let (x, r) = pat in TOk ((TvInt x), r))
+     | ThF64 ->
+       tbind (r_f64 p b) (fun pat -> let (x, r) = pat in TOk ((TvInt x), r))
+     | ThStr ->
+       tbind (r_bytes p b) (fun pat ->
+         let (s, r) = pat in TOk ((TvBytes (true, s)), r))
+     | ThBytes ->
+       tbind (r_bytes p b) (fun pat ->
+         let (s, r) = pat in TOk ((TvBytes (true, s)), r))
+     | ThList et ->
+       tbind (r_list p b) (fun pat ->
+         let (h, r) = pat in
+         let (n0, lt) = h in
+         let lt0 = if Z.eqb lt c_TRUE then c_BOOL else lt in
+         if negb (Z.eqb (type_of et) lt0)
+         then if has_flag0 flags f_strict
+              then TErr EMismatch
+              else TOk (old, r)
+         else if Z.ltb n0 Z0
+              then TErr EOther
+              else let rec go k cnt acc r0 =
+                     if Z.leb cnt Z0
+                     then TOk ((TvList (true, (rev acc))), r0)
+                     else (match k with
+                           | O -> TOutOfFuel
+                           | S k' ->
+                             tbind
+                               (dont_expect_eof
+                                 (dec f p et (Z.coq_land flags f_strict)
+                                   (zero_of et) r0)) (fun pat0 ->
+                               let (x, r1) = pat0 in
+                               go k' (Z.sub cnt (Zpos XH)) (x :: acc) r1))
+                   in go (S (length r)) n0 [] r)
+     | ThSet kt ->
+       tbind (r_list p b) (fun pat ->
+         let (h, r) = pat in
+         let (n0, lt) = h in
+         let lt0 = if Z.eqb lt c_TRUE then c_BOOL else lt in
+         if Z.ltb n0 Z0
+         then TErr EOther
+         else if Z.eqb n0 Z0
+              then TOk ((TvSet (true, [])), r)
+              else if negb (Z.eqb (type_of kt) lt0)
+                   then if has_flag0 flags f_strict
+                        then TErr EMismatch
+                        else TOk ((TvSet (true, [])), r)
+                   else let rec go k cnt acc r0 =
+                          if Z.leb cnt Z0
+                          then TOk ((TvSet (true, acc)), r0)
+                          else (match k with
+                                | O -> TOutOfFuel
+                                | S k' ->
+                                  tbind
+                                    (dont_expect_eof
+                                      (dec f p kt (Z.coq_land flags f_strict)
+                                        (zero_of kt) r0)) (fun pat0 ->
+                                    let (x, r1) = pat0 in
+                                    go k' (Z.sub cnt (Zpos XH))
+                                      (set_add acc x) r1))
+                        in go (S (length r)) n0 [] r)
+     | ThMap (kt, vt) ->
+       tbind (r_map p b) (fun pat ->
+         let (h, r) = pat in
+         let (p0, mv) = h in
+         let (n0, mk) = p0 in
+         if Z.ltb n0 Z0
+         then TErr EOther
+         else if Z.eqb n0 Z0
+              then TOk ((TvMap (true, [])), r)
+              else if negb (Z.eqb (type_of kt) mk)
+                   then if has_flag0 flags f_strict
+                        then TErr EMismatch
+                        else TOk ((TvMap (true, [])), r)
+                   else if negb (Z.eqb (type_of vt) mv)
+                        then if has_flag0 flags f_strict
+                             then TErr EMismatch
+                             else TOk ((TvMap (true, [])), r)
+                        else let rec go k cnt acc r0 =
+                               if Z.leb cnt Z0
+                               then TOk ((TvMap (true, acc)), r0)
+                               else (match k with
+                                     | O -> TOutOfFuel
+                                     | S k' ->
+                                       tbind
+                                         (dont_expect_eof
+                                           (dec f p kt
+                                             (Z.coq_land flags f_strict)
+                                             (zero_of kt) r0)) (fun pat0 ->
+                                         let (x, r1) = pat0 in
+                                         tbind
+                                           (dont_expect_eof
+                                             (dec f p vt
+                                               (Z.coq_land flags f_strict)
+                                               (zero_of vt) r1)) (fun pat1 ->
+                                           let (y, r2) = pat1 in
+                                           go k' (Z.sub cnt (Zpos XH))
+                                             (map_set acc x y) r2)))
+                             in go (S (length r)) n0 [] r)
+     | ThStruct fs ->
+       let vs =
+         match old with
+         | TvBool _ ->
+           (match zero_of t with
+            | TvBool _ -> []
+            | TvInt _ -> []
+            | TvBytes (_, _) -> []
+            | TvList (_, _) -> []
+            | TvSet (_, _) -> []
+            | TvMap (_, _) -> []
+            | TvStruct z0 -> z0
+            | TvPtr _ -> [])
+         | TvStruct vs -> vs
+         | _ -> (match zero_of t with
+                 | TvStruct z0 -> z0
+                 | _ -> [])
+       in
+       let ids = map fld_id fs in
+       let minID =
+         fold_left (fun m i ->
+           if (||) (Z.ltb i m) (Z.eqb m Z0) then i else m) ids Z0
+       in
+       let maxID = fold_left Z.max ids Z0 in
+       let nslots = Z.add (Z.sub maxID minID) (Zpos XH) in
+       let nwords =
+         Z.add (Z.div nslots (Zpos (XO (XO (XO (XO (XO (XO XH)))))))) (Zpos
+           XH)
+       in
+       let lookup = fun id0 ->
+         let rec go fs0 i =
+           match fs0 with
+           | [] -> None
+           | fd :: r ->
+             if Z.eqb (fld_id fd) id0 then Some (i, fd) else go r (S i)
+         in go fs O
+       in
+       let strictf = Z.coq_land flags f_strict in
+       let rec loop k r last nfields vs0 seen =
+         match k with
+         | O -> TOutOfFuel
+         | S k' ->
+           (match r_field p r with
+            | TOk a ->
+              let (p0, r0) = a in
+              let (p1, isdelta) = p0 in
+              let (id0, fty) = p1 in
+              if Z.eqb fty c_STOP
+              then let missing =
+                     existsb (fun fd ->
+                       (&&) (has_flag0 (fld_flags fd) f_required)
+                         (negb
+                           (existsb (Z.eqb (Z.sub (fld_id fd) minID)) seen)))
+                       fs
+                   in
+                   if missing then TErr EMissing else TOk ((TvStruct vs0), r0)
+              else let id1 = if isdelta then s16 (Z.add id0 last) else id0 in
+                   let slot = Z.sub id1 minID in
+                   let known =
+                     if (||) (Z.ltb slot Z0) (Z.geb slot nslots)
+                     then None
+                     else lookup id1
+                   in
+                   (match known with
+                    | Some p2 ->
+                      let (i, fd) = p2 in
+                      if Z.geb
+                           (Z.div slot (Zpos (XO (XO (XO (XO (XO (XO
+                             XH)))))))) nwords
+                      then TPanic
+                      else let seen0 = slot :: seen in
+                           let fexp = type_of (fld_ty fd) in
+                           if (&&) (negb (Z.eqb fty fexp))
+                                (negb
+                                  ((&&) (Z.eqb fty c_TRUE)
+                                    (Z.eqb fexp c_BOOL)))
+                           then if has_flag0 flags f_strict
+                                then TErr EMismatch
+                                else loop k' r0 id1 (Z.add nfields (Zpos XH))
+                                       vs0 seen0
+                           else let oldf = nth i vs0 (zero_of (fld_ty fd)) in
+                                if (&&)
+                                     (match p with
+                                      | PBinary -> false
+                                      | PCompact -> true)
+                                     ((||) (Z.eqb fty c_TRUE)
+                                       (Z.eqb fty c_BOOL))
+                                then loop k' r0 id1 (Z.add nfields (Zpos XH))
+                                       (set_nth0 vs0 i
+                                         (wrap_ptrs (fld_ty fd) (TvBool
+                                           (Z.eqb fty c_TRUE)))) seen0
+                                else let fl = Z.coq_lor strictf (fld_flags fd)
+                                     in
+                                     tbind
+                                       (dont_expect_eof
+                                         (if has_flag0 (fld_flags fd) f_enum
+                                          then (match fld_ty fd with
+                                                | ThI8 ->
+                                                  tbind (r_i32 p r0)
+                                                    (fun pat ->
+                                                    let (z0, r1) = pat in
+                                                    TOk ((TvInt z0), r1))
+                                                | ThI16 ->
+                                                  tbind (r_i32 p r0)
+                                                    (fun pat ->
+                                                    let (z0, r1) = pat in
+                                                    TOk ((TvInt z0), r1))
+                                                | ThI32 ->
+                                                  tbind (r_i32 p r0)
+                                                    (fun pat ->
+                                                    let (z0, r1) = pat in
+                                                    TOk ((TvInt z0), r1))
+                                                | ThI64 ->
+                                                  tbind (r_i32 p r0)
+                                                    (fun pat ->
+                                                    let (z0, r1) = pat in
+                                                    TOk ((TvInt z0), r1))
+                                                | x -> dec f p x fl oldf r0)
+                                          else dec f p (fld_ty fd) fl oldf r0))
+                                       (fun pat ->
+                                       let (x, r1) = pat in
+                                       loop k' r1 id1
+                                         (Z.add nfields (Zpos XH))
+                                         (set_nth0 vs0 i x) seen0)
+                    | None ->
+                      tbind
+                        (dont_expect_eof
+                          (if (&&)
+                                ((||) (Z.eqb fty c_TRUE) (Z.eqb fty c_BOOL))
+                                (match p with
+                                 | PBinary -> false
+                                 | PCompact -> true)
+                           then TOk r0
+                           else skip f p fty r0)) (fun r1 ->
+                        loop k' r1 id1 (Z.add nfields (Zpos XH)) vs0 seen))
+            | TErr e ->
+              TErr
+                (if (&&) (Z.gtb nfields Z0)
+                      (match e with
+                       | EEOF -> true
+                       | _ -> false)
+                 then EUnexpectedEOF
+                 else e)
+            | TPanic -> TPanic
+            | TOutOfFuel -> TOutOfFuel)
+       in loop f b Z0 Z0 vs []
+     | ThPtr t' ->
+       let cur =
+         match old with
+         | TvPtr o -> (match o with
+                       | Some x -> x
+                       | None -> zero_of t')
+         | _ -> zero_of t'
+       in
+       tbind (dec f p t' flags cur b) (fun pat ->
+         let (x, r) = pat in TOk ((TvPtr (Some x)), r)))
+
+(** val tUnmarshal : nat -> proto -> tty -> bytes -> tval tres **)
+
+let tUnmarshal fuel p t b =
+  tbind (dec fuel p t Z0 (zero_of t) b) (fun pat ->
+    let (v, r) = pat in (match r with
+                         | [] -> TOk v
+                         | _ :: _ -> TErr EOther))
+
+(** val tlim : z **)
+
+let tlim =
+  Z.pow (Zpos (XO XH)) (Zpos (XI (XI (XI (XI XH)))))
+
+(** val is_key_ty : tty -> bool **)
+
+let is_key_ty = function
+| ThBool -> true
+| ThI8 -> true
+| ThI16 -> true
+| ThI32 -> true
+| ThI64 -> true
+| ThStr -> true
+| _ -> false
+
+(** val distinctZ : z list -> bool **)
+
+let rec distinctZ = function
+| [] -> true
+| x :: r -> (&&) (negb (existsb (Z.eqb x) r)) (distinctZ r)
+
+(** val zero_size : tty -> bool **)
+
+let rec zero_size = function
+| ThStruct fs ->
+  let rec go = function
+  | [] -> true
+  | t0 :: r -> let TField (_, _, ft) = t0 in (&&) (zero_size ft) (go r)
+  in go fs
+| _ -> false
+
+(** val ty_ok : tty -> bool **)
+
+let rec ty_ok = function
+| ThList et -> ty_ok et
+| ThSet kt -> is_key_ty kt
+| ThMap (kt, vt) ->
+  (&&) ((&&) (is_key_ty kt) (ty_ok vt)) (negb (zero_size vt))
+| ThStruct fs ->
+  (&&) (distinctZ (map fld_id fs))
+    (let rec go = function
+     | [] -> true
+     | t0 :: r ->
+       let TField (id0, fl, ft) = t0 in
+       (&&)
+         ((&&)
+           ((&&)
+             ((&&)
+               ((&&)
+                 ((&&) (Z.leb (Zpos XH) id0)
+                   (Z.ltb id0 (Z.pow (Zpos (XO XH)) (Zpos (XI (XI (XI XH)))))))
+                 (ty_ok ft))
+               (negb
+                 ((&&) (has_flag0 fl f_required) (has_flag0 fl f_optional))))
+             ((||) (negb (has_flag0 fl f_enum))
+               (match ft with
+                | ThI32 -> true
+                | _ -> false)))
+           ((||)
+             ((||)
+               ((||)
+                 ((||) ((||) (Z.eqb fl Z0) (Z.eqb fl f_required))
+                   (Z.eqb fl f_optional)) (Z.eqb fl f_enum))
+               (Z.eqb fl (Z.add f_enum f_required)))
+             (Z.eqb fl (Z.add f_enum f_optional)))) (go r)
+     in go fs)
+| ThPtr t' -> (&&) (ty_ok t') (match t' with
+                               | ThPtr _ -> false
+                               | _ -> true)
+| _ -> true
+
+(** val tval_wf : tty -> tval -> bool **)
+
+let rec tval_wf t v =
+  match t with
+  | ThBool -> (match v with
+               | TvBool _ -> true
+               | _ -> false)
+  | ThI8 ->
+    (match v with
+     | TvInt z0 ->
+       (&&) (Z.leb (Z.opp (Z.pow (Zpos (XO XH)) (Zpos (XI (XI XH))))) z0)
+         (Z.ltb z0 (Z.pow (Zpos (XO XH)) (Zpos (XI (XI XH)))))
+     | _ -> false)
+  | ThI16 ->
+    (match v with
+     | TvInt z0 ->
+       (&&)
+         (Z.leb (Z.opp (Z.pow (Zpos (XO XH)) (Zpos (XI (XI (XI XH)))))) z0)
+         (Z.ltb z0 (Z.pow (Zpos (XO XH)) (Zpos (XI (XI (XI XH))))))
+     | _ -> false)
+  | ThI32 ->
+    (match v with
+     | TvInt z0 ->
+       (&&)
+         (Z.leb (Z.opp (Z.pow (Zpos (XO XH)) (Zpos (XI (XI (XI (XI XH)))))))
+           z0) (Z.ltb z0 (Z.pow (Zpos (XO XH)) (Zpos (XI (XI (XI (XI XH)))))))
+     | _ -> false)
+  | ThI64 ->
+    (match v with
+     | TvInt z0 ->
+       (&&)
+         (Z.leb
+           (Z.opp (Z.pow (Zpos (XO XH)) (Zpos (XI (XI (XI (XI (XI XH))))))))
+           z0)
+         (Z.ltb z0 (Z.pow (Zpos (XO XH)) (Zpos (XI (XI (XI (XI (XI XH))))))))
+     | _ -> false)
+  | ThF64 ->
+    (match v with
+     | TvInt z0 ->
+       (&&) (Z.leb Z0 z0)
+         (Z.ltb z0
+           (Z.pow (Zpos (XO XH)) (Zpos (XO (XO (XO (XO (XO (XO XH)))))))))
+     | _ -> false)
+  | ThStr ->
+    (match v with
+     | TvBytes (nn, s) -> (&&) ((&&) nn (wfb s)) (Z.ltb (len s) tlim)
+     | _ -> false)
+  | ThBytes ->
+    (match v with
+     | TvBytes (nn, s) ->
+       (&&) ((&&) (wfb s) (Z.ltb (len s) tlim)) ((||) nn (Z.eqb (len s) Z0))
+     | _ -> false)
+  | ThList et ->
+    (match v with
+     | TvList (nn, es) ->
+       (&&) ((&&) (Z.ltb (len es) tlim) ((||) nn (Z.eqb (len es) Z0)))
+         (let rec go = function
+          | [] -> true
+          | x :: r ->
+            (&&)
+              ((&&) (tval_wf et x)
+                (negb
+                  (match x with
+                   | TvPtr o -> (match o with
+                                 | Some _ -> false
+                                 | None -> true)
+                   | _ -> false))) (go r)
+          in go es)
+     | _ -> false)
+  | ThSet kt ->
+    (match v with
+     | TvSet (nn, ks) ->
+       (&&) ((&&) (Z.ltb (len ks) tlim) ((||) nn (Z.eqb (len ks) Z0)))
+         (let rec go = function
+          | [] -> true
+          | x :: r ->
+            (&&) ((&&) (tval_wf kt x) (negb (existsb (tval_eqb x) r))) (go r)
+          in go ks)
+     | _ -> false)
+  | ThMap (kt, vt) ->
+    (match v with
+     | TvMap (nn, es) ->
+       (&&) ((&&) (Z.ltb (len es) tlim) ((||) nn (Z.eqb (len es) Z0)))
+         (let rec go = function
+          | [] -> true
+          | p :: r ->
+            let (k, x) = p in
+            (&&)
+              ((&&)
+                ((&&) ((&&) (tval_wf kt k) (tval_wf vt x))
+                  (negb
+                    (match x with
+                     | TvPtr o ->
+                       (match o with
+                        | Some _ -> false
+                        | None -> true)
+                     | _ -> false)))
+                (negb (existsb (fun kv -> tval_eqb k (fst kv)) r))) (go r)
+          in go es)
+     | _ -> false)
+  | ThStruct fs ->
+    (match v with
+     | TvStruct vs ->
+       let rec go fs0 vs0 =
+         match fs0 with
+         | [] -> (match vs0 with
+                  | [] -> true
+                  | _ :: _ -> false)
+         | t0 :: fr ->
+           let TField (_, fl, ft) = t0 in
+           (match vs0 with
+            | [] -> false
+            | x :: vr ->
+              (&&)
+                ((&&) (tval_wf ft x)
+                  (negb
+                    ((&&) (has_flag0 fl f_required)
+                      (match x with
+                       | TvPtr o ->
+                         (match o with
+                          | Some _ -> false
+                          | None -> true)
+                       | _ -> false)))) (go fr vr))
+       in go fs vs
+     | _ -> false)
+  | ThPtr t' ->
+    (match v with
+     | TvPtr o -> (match o with
+                   | Some x -> tval_wf t' x
+                   | None -> true)
+     | _ -> false)
+
+(** val tnorm : tty -> tval -> tval **)
+
+let rec tnorm t v =
+  match t with
+  | ThF64 ->
+    (match v with
+     | TvInt z0 ->
+       TvInt
+         (if Z.eqb z0
+               (Z.pow (Zpos (XO XH)) (Zpos (XI (XI (XI (XI (XI XH)))))))
+          then Z0
+          else z0)
+     | _ -> v)
+  | ThStr -> (match v with
+              | TvBytes (_, s) -> TvBytes (true, s)
+              | _ -> v)
+  | ThBytes -> (match v with
+                | TvBytes (_, s) -> TvBytes (true, s)
+                | _ -> v)
+  | ThList et ->
+    (match v with
+     | TvList (_, es) ->
+       TvList (true,
+         (let rec go = function
+          | [] -> []
+          | x :: r -> (tnorm et x) :: (go r)
+          in go es))
+     | _ -> v)
+  | ThSet _ -> (match v with
+                | TvSet (_, ks) -> TvSet (true, ks)
+                | _ -> v)
+  | ThMap (_, vt) ->
+    (match v with
+     | TvMap (_, es) ->
+       TvMap (true,
+         (let rec go = function
+          | [] -> []
+          | p :: r -> let (k, x) = p in (k, (tnorm vt x)) :: (go r)
+          in go es))
+     | _ -> v)
+  | ThStruct fs ->
+    (match v with
+     | TvStruct vs ->
+       TvStruct
+         (let rec go fs0 vs0 =
+            match fs0 with
+            | [] -> []
+            | t0 :: fr ->
+              let TField (_, _, ft) = t0 in
+              (match vs0 with
+               | [] -> []
+               | x :: vr -> (tnorm ft x) :: (go fr vr))
+          in go fs vs)
+     | _ -> v)
+  | ThPtr t' ->
+    (match v with
+     | TvPtr o ->
+       (match o with
+        | Some x -> TvPtr (Some (tnorm t' x))
+        | None -> v)
+     | _ -> v)
+  | _ -> v
+
+(** val spec_code : proto -> tty -> z **)
+
+let rec spec_code p = function
+| ThBool -> Zpos (XO XH)
+| ThI8 -> Zpos (XI XH)
+| ThI16 ->
+  (match p with
+   | PBinary -> Zpos (XO (XI XH))
+   | PCompact -> Zpos (XO (XO XH)))
+| ThI32 ->
+  (match p with
+   | PBinary -> Zpos (XO (XO (XO XH)))
+   | PCompact -> Zpos (XI (XO XH)))
+| ThI64 ->
+  (match p with
+   | PBinary -> Zpos (XO (XI (XO XH)))
+   | PCompact -> Zpos (XO (XI XH)))
+| ThF64 ->
+  (match p with
+   | PBinary -> Zpos (XO (XO XH))
+   | PCompact -> Zpos (XI (XI XH)))
+| ThList _ ->
+  (match p with
+   | PBinary -> Zpos (XI (XI (XI XH)))
+   | PCompact -> Zpos (XI (XO (XO XH))))
+| ThSet _ ->
+  (match p with
+   | PBinary -> Zpos (XO (XI (XI XH)))
+   | PCompact -> Zpos (XO (XI (XO XH))))
+| ThMap (_, _) ->
+  (match p with
+   | PBinary -> Zpos (XI (XO (XI XH)))
+   | PCompact -> Zpos (XI (XI (XO XH))))
+| ThStruct _ -> Zpos (XO (XO (XI XH)))
+| ThPtr t' -> spec_code p t'
+| _ ->
+  (match p with
+   | PBinary -> Zpos (XI (XI (XO XH)))
+   | PCompact -> Zpos (XO (XO (XO XH))))
+
+type deviations = { dev_typecodes : bool; dev_stop3 : bool;
+                    dev_double_be : bool }
+
+(** val no_dev : deviations **)
+
+let no_dev =
+  { dev_typecodes = false; dev_stop3 = false; dev_double_be = false }
+
+(** val pkg_dev : deviations **)
+
+let pkg_dev =
+  { dev_typecodes = true; dev_stop3 = true; dev_double_be = true }
+
+(** val le_bytes8 : nat -> z -> bytes **)
+
+let rec le_bytes8 n0 v =
+  match n0 with
+  | O -> []
+  | S n' ->
+    (Z.modulo v (Zpos (XO (XO (XO (XO (XO (XO (XO (XO XH)))))))))) :: 
+      (le_bytes8 n'
+        (Z.div v (Zpos (XO (XO (XO (XO (XO (XO (XO (XO XH)))))))))))
+
+(** val code_of : deviations -> proto -> tty -> z **)
+
+let code_of d p t =
+  match p with
+  | PBinary ->
+    if d.dev_typecodes then spec_code PCompact t else spec_code PBinary t
+  | PCompact -> spec_code PCompact t
+
+(** val s_i32 : proto -> z -> bytes **)
+
+let s_i32 p z0 =
+  match p with
+  | PBinary -> be_bytes (S (S (S (S O)))) (w32 z0)
+  | PCompact -> uvarint (zz64 z0)
+
+(** val s_list_header : proto -> z -> z -> bytes **)
+
+let s_list_header p code n0 =
+  match p with
+  | PBinary -> app (code :: []) (be_bytes (S (S (S (S O)))) n0)
+  | PCompact ->
+    if Z.ltb n0 (Zpos (XI (XI (XI XH))))
+    then (Z.add (Z.mul n0 (Zpos (XO (XO (XO (XO XH)))))) code) :: []
+    else app
+           ((Z.add (Zpos (XO (XO (XO (XO (XI (XI (XI XH)))))))) code) :: [])
+           (uvarint n0)
+
+(** val spec_enc : deviations -> proto -> tty -> tval -> bytes **)
+
+let rec spec_enc d p t v =
+  match t with
+  | ThBool ->
+    (match v with
+     | TvBool b -> (if b then Zpos XH else Z0) :: []
+     | _ -> [])
+  | ThI8 -> (match v with
+             | TvInt z0 -> (w8 z0) :: []
+             | _ -> [])
+  | ThI16 ->
+    (match v with
+     | TvInt z0 ->
+       (match p with
+        | PBinary -> be_bytes (S (S O)) (w16 z0)
+        | PCompact -> uvarint (zz64 z0))
+     | _ -> [])
+  | ThI32 -> (match v with
+              | TvInt z0 -> s_i32 p z0
+              | _ -> [])
+  | ThI64 ->
+    (match v with
+     | TvInt z0 ->
+       (match p with
+        | PBinary -> be_bytes (S (S (S (S (S (S (S (S O)))))))) (w64 z0)
+        | PCompact -> uvarint (zz64 z0))
+     | _ -> [])
+  | ThF64 ->
+    (match v with
+     | TvInt z0 ->
+       (match p with
+        | PBinary -> be_bytes (S (S (S (S (S (S (S (S O)))))))) z0
+        | PCompact ->
+          if d.dev_double_be
+          then be_bytes (S (S (S (S (S (S (S (S O)))))))) z0
+          else le_bytes8 (S (S (S (S (S (S (S (S O)))))))) z0)
+     | _ -> [])
+  | ThList et ->
+    (match v with
+     | TvList (_, es) ->
+       app (s_list_header p (code_of d p et) (len es))
+         (let rec go = function
+          | [] -> []
+          | x :: r -> app (spec_enc d p et x) (go r)
+          in go es)
+     | _ -> [])
+  | ThSet kt ->
+    (match v with
+     | TvSet (_, ks) ->
+       app (s_list_header p (code_of d p kt) (len ks))
+         (let rec go = function
+          | [] -> []
+          | x :: r -> app (spec_enc d p kt x) (go r)
+          in go ks)
+     | _ -> [])
+  | ThMap (kt, vt) ->
+    (match v with
+     | TvMap (_, es) ->
+       app
+         (match p with
+          | PBinary ->
+            app ((code_of d p kt) :: ((code_of d p vt) :: []))
+              (be_bytes (S (S (S (S O)))) (len es))
+          | PCompact ->
+            app (uvarint (len es))
+              (if Z.eqb (len es) Z0
+               then []
+               else (Z.add
+                      (Z.mul (code_of d p kt) (Zpos (XO (XO (XO (XO XH))))))
+                      (code_of d p vt)) :: []))
+         (let rec go = function
+          | [] -> []
+          | p0 :: r ->
+            let (k, x) = p0 in
+            app (spec_enc d p kt k) (app (spec_enc d p vt x) (go r))
+          in go es)
+     | _ -> [])
+  | ThStruct fs ->
+    (match v with
+     | TvStruct vs ->
+       let bodies =
+         let rec mk fs0 vs0 =
+           match fs0 with
+           | [] -> []
+           | f :: fr ->
+             (match vs0 with
+              | [] -> []
+              | x :: vr ->
+                (f, (x,
+                  (let TField (_, fl, ft) = f in
+                   if has_flag0 fl f_enum
+                   then (match x with
+                         | TvBool _ -> []
+                         | TvInt z0 -> s_i32 p z0
+                         | _ -> [])
+                   else spec_enc d p ft x))) :: (mk fr vr))
+         in mk fs vs
+       in
+       let rec go l last =
+         match l with
+         | [] ->
+           app (Z0 :: [])
+             (match p with
+              | PBinary -> if d.dev_stop3 then Z0 :: (Z0 :: []) else []
+              | PCompact -> [])
+         | p0 :: r ->
+           let (f, p1) = p0 in
+           let (x, body) = p1 in
+           if (||)
+                (match x with
+                 | TvPtr o -> (match o with
+                               | Some _ -> false
+                               | None -> true)
+                 | _ -> false)
+                ((&&) (negb (has_flag0 (fld_flags f) f_required))
+                  (is_zero_t (fld_ty f) x))
+           then go r last
+           else (match p with
+                 | PBinary ->
+                   app ((code_of d p (fld_ty f)) :: [])
+                     (app (be_bytes (S (S O)) (fld_id f))
+                       (app body (go r (fld_id f))))
+                 | PCompact ->
+                   let isbool =
+                     Z.eqb (spec_code PCompact (fld_ty f)) (Zpos (XO XH))
+                   in
+                   let code =
+                     if isbool
+                     then if deref_bool x then Zpos XH else Zpos (XO XH)
+                     else spec_code PCompact (fld_ty f)
+                   in
+                   let delta = Z.sub (fld_id f) last in
+                   app
+                     (if (&&) (Z.ltb Z0 delta)
+                           (Z.leb delta (Zpos (XI (XI (XI XH)))))
+                      then (Z.add (Z.mul delta (Zpos (XO (XO (XO (XO XH))))))
+                             code) :: []
+                      else app (code :: []) (uvarint (zz64 (fld_id f))))
+                     (app (if isbool then [] else body) (go r (fld_id f))))
+       in go (sort_by_id bodies) Z0
+     | _ -> [])
+  | ThPtr t' ->
+    (match v with
+     | TvPtr o ->
+       (match o with
+        | Some x -> spec_enc d p t' x
+        | None -> spec_enc d p t' (zero_of t'))
+     | _ -> [])
+  | _ ->
+    (match v with
+     | TvBytes (_, s) ->
+       app
+         (match p with
+          | PBinary -> be_bytes (S (S (S (S O)))) (len s)
+          | PCompact -> uvarint (len s)) s
+     | _ -> [])
